@@ -52,7 +52,25 @@ THEOREMS = [
      for _m in ('get_value', 'set_value', 'get_last_value', 'set_last_value', 'get_static_field_view',
                 'get_last_static_field_view', 'get_first_group_view', 'get_first_data_view', 'get_group_view',
                 'get_data_view')
-     if not (_c == 'S' and _m.startswith('set_'))]
+     if not (_c == 'S' and _m.startswith('set_'))] + [
+    # cursor ranges: the same statements about the member functions translated from sbepp.hpp (extract/methods_group.py)
+    'Sbepp.Properties.C04.cursor_subrange_spec_extracted',
+    'Sbepp.Properties.C04.cursor_subrange_spec_unchecked_extracted',
+    'Sbepp.Properties.C04.cursor_range_iteration_extracted',
+    'Sbepp.Lemmas.GroupTie.C.mkRangeFlatX_eq',
+    'Sbepp.Lemmas.GroupTie.C.mkRangeNestedX_eq',
+    'Sbepp.Lemmas.GroupTie.C.forRange_visitLoop',
+    'Sbepp.Lemmas.GroupTie.C.forRange_iterE',
+    'Sbepp.Lemmas.GroupTie.C.Entry.accessors_tie',
+] + ['Sbepp.Lemmas.GroupTie.C.%s.%s_tie' % (_c, _m)
+     for _c, _ms in (('Entry', ('ctor_ptr', 'ctor_cursor')),
+                     ('InputIt', ('ctor', 'deref', 'inc', 'eq', 'ne')),
+                     ('CursorRange', ('ctor', 'size', 'begin', 'end')),
+                     ('CFlat', ('get_header', 'sbe_size', 'size', 'cursor_range', 'cursor_subrange1', 'cursor_subrange2',
+                                'cursor_begin', 'cursor_end', 'visit_children')),
+                     ('CNested', ('get_header', 'sbe_size', 'size', 'cursor_range', 'cursor_subrange1', 'cursor_subrange2',
+                                  'cursor_begin', 'cursor_end', 'visit_children')))
+     for _m in _ms]
 
 MOVING = ('plain', 'init', 'skip')
 
@@ -806,6 +824,11 @@ def run(chk):
     mfail = ((chk.extract_report or {}).get('parts', {}).get('methods_cursor') or {}).get('failed')
     if mfail and not chk.violations:
         chk.report_unproved('extraction', {'extractor': 'methods_cursor', 'failed': mfail})
+    gfail = {k: v for k, v in (((chk.extract_report or {}).get('parts', {}).get('methods_group') or {}).get('failed') or {}).items()
+             if k.split('::')[0] in ('model-II', 'flat_group_base', 'nested_group_base', 'entry_base', 'input_iterator',
+                                     'cursor_range')}
+    if gfail and not chk.violations:
+        chk.report_unproved('extraction', {'extractor': 'methods_group', 'failed': gfail})
     chk.assumptions += [
         'the random-access getter passed to get_group_view/get_data_view is modelled by the position functions of '
         'Rt.Walk (C02/C03); its internal size checks are not part of this model',
